@@ -90,6 +90,11 @@ def sweep_cases(ctx: core.Ctx, rnd: random.Random, gens: list, repeats: int, *, 
                     if sname is None and fname.endswith("unknownext"):
                         fl = {"dot": "fallback"}
                     add(fname, sname, kind, b, fl, "rep:" + fname, unrec=fname.endswith("unknownext"))
+            # --force-dot-license on a file that declares information in its own header: the new sibling must not make the
+            # linter forget it
+            if sname is not None:
+                for kind in ("ownheader", "owncon", "foreign"):
+                    add(fname, sname, kind, by_name["B9"], {"dot": "force"}, "rep:" + fname)
             for tmpl in ("full", "nocon"):
                 add(fname, sname, "code", by_name["B9"], {"template": tmpl, **({"dot": "fallback"} if fname.endswith("unknownext") else {})},
                     "rep:" + fname, unrec=fname.endswith("unknownext"))
